@@ -96,6 +96,21 @@ func makeRepo(dir string, old, new map[string]string) error {
 	return git(dir, "commit", "-q", "--allow-empty", "-m", "new")
 }
 
+// dirtyTree replaces the Thrift files of the checkout (those of committed) by want, each with
+// suffix appended, without committing anything.
+func dirtyTree(dir string, want, committed map[string]string, suffix string) error {
+	for p := range committed {
+		if err := os.Remove(filepath.Join(dir, filepath.FromSlash(p))); err != nil && !os.IsNotExist(err) {
+			return err
+		}
+	}
+	out := map[string]string{}
+	for p, text := range want {
+		out[p] = text + suffix
+	}
+	return writeTree(dir, out)
+}
+
 // ---- the real binary ----
 
 var templates = []struct {
